@@ -201,6 +201,9 @@ def base_members(base: str, off: Sequence[str]) -> Dict[str, bytes]:
     if key not in _MEMBERS:
         if base == "ks":
             _MEMBERS[key] = E.members(off)
+        elif base == "ks-written":  # what write_pdx_file makes of the kitchen-sink database (index.xml first -> last, as in shipped archives)
+            install_template_cache()
+            _MEMBERS[key] = write_members(load_base("ks", off))
         else:
             _MEMBERS[key] = read_members(os.path.join(repo_root(), SHIPPED[base]))
     return _MEMBERS[key]
@@ -655,7 +658,7 @@ def attempt(fn: Any) -> Tuple[str, Any]:
 def behaviour(db: Any) -> List[Any]:
     """[(layer, service, step, outcome)] -- deterministic, JSON-able."""
     out: List[Any] = []
-    for layer in db.diag_layers:
+    for layer in sorted(db.diag_layers, key=lambda la: la.short_name):  # (the order of whole documents is DON'T-CARE)
         tag, services = attempt(lambda: list(layer.services))
         if tag != "ok":
             out.append([layer.short_name, "<services>", "list", [tag, services]])
@@ -757,6 +760,8 @@ def judge(db: Any, pert: Optional[Dict[str, Any]], with_behaviour_of_original: b
     crash_pair = pair or "baseline"
     meta = kind == "meta" or (kind in ("set", "grow") and pert is not None and "a&b<c>" in pert.get("new", ""))
     root = root_of(db)
+    aux_before = aux_contents(db) if pert is None else {}
+    codes_before = code_objects(db) if pert is None else {}
     try:
         m = write_members(db)
     except Exception as e:
@@ -842,6 +847,8 @@ def judge(db: Any, pert: Optional[Dict[str, Any]], with_behaviour_of_original: b
         pass  # the field-wise comparison is at least as strict as dataclass equality (bool vs int)
     if pert is None and not eq and not diffs:
         out.findings.append(("C11/unlocalised/altered", "dataclass equality of the top-level objects fails but no field differs"))
+    if pert is None and strict_error is None:
+        judge_aux(db, aux_before, codes_before, m, db1, out)
     # second write: byte-identical ODX members (then loading it again gives the same database: loader determinism is part (c))
     try:
         m2 = write_members(db1)
@@ -873,6 +880,66 @@ def judge(db: Any, pert: Optional[Dict[str, Any]], with_behaviour_of_original: b
         if bd:
             out.findings.append(bd)
     return out
+
+
+def aux_contents(db: Any) -> Dict[str, bytes]:
+    """{base name: content} of the auxiliary files of a database (the file objects are left rewound)."""
+    out: Dict[str, bytes] = {}
+    for name, f in db.auxiliary_files.items():
+        f.seek(0)
+        out[os.path.basename(str(name))] = f.read()
+        f.seek(0)
+    return out
+
+
+def aux_members(m: Dict[str, bytes]) -> Dict[str, bytes]:
+    return {n: b for n, b in m.items() if not is_odx(n) and n.lower() != "index.xml"}
+
+
+def code_objects(db: Any) -> Dict[Tuple[Any, ...], Tuple[str, str, Any]]:
+    """{path: (class, CODE-FILE, .code)} of every PROG-CODE and LIBRARY (`code` is the content of the auxiliary file)."""
+    out: Dict[Tuple[Any, ...], Tuple[str, str, Any]] = {}
+    for s in R.walk(root_of(db)):
+        if s.attr == "code_file" and s.holder is s.owner and hasattr(s.owner, "code"):
+            try:
+                code = s.owner.code
+            except Exception as e:
+                code = "<" + type(e).__name__ + ">"
+            out[tuple(s.path[:-1])] = (s.cls, s.value, code)
+    return out
+
+
+def judge_aux(db: Any, before: Dict[str, bytes], codes0: Dict[Any, Any], m: Dict[str, bytes], db1: Any, out: "Outcome") -> None:
+    """Auxiliary files: contents in the written archive, in an archive written AGAIN from the same Database object, and as seen
+    by ProgCode.code / Library.code of the databases loaded from both."""
+
+    def cmp_members(tag: str, key: str, got: Dict[str, bytes]) -> None:
+        for n in sorted(before):
+            if n not in got:
+                out.findings.append((f"C11/Database.auxiliary_files/dropped", f"{tag}: auxiliary file {n!r} is missing"))
+            elif got[n] != before[n]:
+                out.findings.append((key, f"{tag}: auxiliary file {n!r} has {len(got[n])} bytes {got[n][:30]!r}, the database holds {len(before[n])} bytes {before[n][:30]!r}"))
+
+    def cmp_codes(tag: str, dbx: Any) -> None:
+        cx = code_objects(dbx)
+        for p, (cls, fn, code) in codes0.items():
+            got = cx.get(p)
+            if got is not None and got[2] != code:
+                out.findings.append((f"C11/{cls}.code/altered", f"{tag} at {list(p)}: code of {fn!r} is {R._short(got[2])}, was {R._short(code)}"))
+
+    cmp_members("written archive", "C11/Database.auxiliary_files/altered", aux_members(m))
+    cmp_codes("database loaded from the written archive", db1)
+    try:
+        m_again = write_members(db)  # the SAME object once more
+        db_again = load_from_members(m_again)
+    except Exception as e:
+        out.findings.append(("C11/rewrite/same-object/crash", f"writing the same Database object a second time / loading that archive raised {type(e).__name__}: {str(e)[:200]}"))
+        return
+    cmp_members("archive written a second time from the same Database object", "C11/rewrite/auxiliary_files/altered", aux_members(m_again))
+    cmp_codes("database loaded from the second archive of the same Database object", db_again)
+    changed = sorted(n for n in m if is_odx(n) and m_again.get(n) != m[n])
+    if changed:
+        out.findings.append((f"C11/rewrite/same-object/altered", f"second write of the same object differs in {changed}: {first_difference(m[changed[0]], m_again.get(changed[0], b''))}"))
 
 
 def well_formed(data: bytes) -> bool:
@@ -1303,6 +1370,7 @@ def run(ctx: Ctx) -> None:
 
     # member orders x entry points
     ounits = order_chunks("ks", off, True, True, 16)
+    ounits += order_chunks("ks-written", off, ctx.quick is False, False, 8)
     ounits += order_chunks("somersault", (), not ctx.quick, False, 16 if ctx.quick else 64)
     ounits += order_chunks("somersault_modified", (), False, False, 4)
     pmap(ctx, order_unit, ounits)
